@@ -7,7 +7,7 @@ use std::mem::{size_of, ManuallyDrop};
 use std::panic::{catch_unwind, AssertUnwindSafe};
 use std::ptr::NonNull;
 
-use any_vec::any_value::{AnyValue, AnyValueMut, AnyValueRaw, AnyValueSizelessRaw, AnyValueTypeless, AnyValueTypelessRaw, AnyValueWrapper};
+use any_vec::any_value::{AnyValue, AnyValueMut, AnyValueRaw, AnyValueSizeless, AnyValueSizelessMut, AnyValueSizelessRaw, AnyValueTypeless, AnyValueTypelessRaw, AnyValueWrapper};
 use any_vec::mem::MemBuilder;
 use any_vec::{AnyVec, SatisfyTraits};
 
@@ -392,6 +392,12 @@ impl<T: Elem + SatisfyTraits<Tr>, M: MX, Tr: TrX + ?Sized> World<T, M, Tr> {
             (Api::Erased, GetKind::GetMut) => a.get_mut(idx).map(|mut e| { if !ok { return OOB; } let id = e.downcast_mut::<T>().unwrap().id(); reports(e.value_typeid(), e.size(), elem::id_of_bytes(e.as_bytes()), id, rp); id }),
             (Api::Erased, GetKind::AtMut) => { let mut e = a.at_mut(idx); if !ok { return Some(OOB); } let id = e.downcast_mut::<T>().unwrap().id(); reports(e.value_typeid(), e.size(), elem::id_of_bytes(e.as_bytes()), id, rp); Some(id) }
             (Api::Erased, GetKind::GetUncheckedInRange) => { if idx < a.len() && ok { if idx % 2 == 0 { let e = unsafe { a.get_unchecked(idx) }; Some(unsafe { e.downcast_ref_unchecked::<T>() }.id()) } else { let mut e = unsafe { a.get_unchecked_mut(idx) }; Some(unsafe { e.downcast_mut_unchecked::<T>() }.id()) } } else { None } }
+            (Api::Erased, GetKind::Index) => { let e = a.at(idx); if !ok { return Some(OOB); } let p = e.as_bytes_ptr(); if p != e.as_bytes().as_ptr() { rp.push(Fail { class: Class::Vec, kind: "handle-bytes", detail: "as_bytes_ptr() differs from as_bytes().as_ptr()".into() }); return Some(e.downcast_ref::<T>().unwrap().id()); }
+                Some(if T::SIZE == 0 { e.downcast_ref::<T>().unwrap().id() } else { elem::id_of_bytes(unsafe { std::slice::from_raw_parts(p, size_of::<T>()) }) }) }
+            (Api::Erased, GetKind::IndexMut) => { let mut e = a.at_mut(idx); if !ok { return Some(OOB); } let p = e.as_bytes_mut_ptr(); if p as *const u8 != e.as_bytes().as_ptr() { rp.push(Fail { class: Class::Vec, kind: "handle-bytes", detail: "as_bytes_mut_ptr() differs from as_bytes().as_ptr()".into() }); return Some(e.downcast_ref::<T>().unwrap().id()); }
+                Some(if T::SIZE == 0 { e.downcast_ref::<T>().unwrap().id() } else { elem::id_of_bytes(unsafe { std::slice::from_raw_parts(p, size_of::<T>()) }) }) }
+            (Api::Typed, GetKind::Index) => { let t = a.downcast_ref::<T>().unwrap(); let x = &t.as_slice()[idx]; Some(if ok { x.id() } else { OOB }) }
+            (Api::Typed, GetKind::IndexMut) => { let mut t = a.downcast_mut::<T>().unwrap(); let x = &mut t.as_mut_slice()[idx]; Some(if ok { x.id() } else { OOB }) }
             (Api::Typed, GetKind::Get) => a.downcast_ref::<T>().unwrap().get(idx).map(|t| if ok { t.id() } else { OOB }),
             (Api::Typed, GetKind::At) => { let t = a.downcast_ref::<T>().unwrap().at(idx); Some(if ok { t.id() } else { OOB }) }
             (Api::Typed, GetKind::GetMut) => a.downcast_mut::<T>().unwrap().get_mut(idx).map(|t| if ok { t.id() } else { OOB }),
@@ -399,7 +405,7 @@ impl<T: Elem + SatisfyTraits<Tr>, M: MX, Tr: TrX + ?Sized> World<T, M, Tr> {
             (Api::Typed, GetKind::GetUncheckedInRange) => { if idx % 2 == 0 { let t = unsafe { a.downcast_ref_unchecked::<T>() }; if idx < t.len() && ok { Some(unsafe { t.get_unchecked(idx) }.id()) } else { None } } else { let mut t = a.downcast_mut::<T>().unwrap(); if idx < t.len() && ok { Some(unsafe { t.get_unchecked_mut(idx) }.id()) } else { None } } }
         });
         out.fails.append(&mut rep);
-        let panics = matches!(kind, GetKind::At | GetKind::AtMut);
+        let panics = matches!(kind, GetKind::At | GetKind::AtMut | GetKind::Index | GetKind::IndexMut);
         match r {
             Err(Caught::Injected) => out.faulted = true,
             Err(Caught::Panic(m)) => if panics && idx >= len { out.oc("panic-oob") } else { out.fail(Class::Vec, "unexpected-panic", format!("get/at({idx}) on len {len} panicked: {m}")) },
